@@ -2,53 +2,77 @@
 C10 — validation results never depend on what the schema object processed before.
 
 Seeded call histories (is_valid / iter_errors / strict validate / decode lax+strict / to_objects / encode /
-stop-validation hook / lazy iter_errors) over pools of documents (xsi:type + identity constraints, wildcards,
-fixed values, ID/IDREF, XSD 1.1 assertions) are run on ONE shared schema object.  After every call
+stop-validation hook / lazy iter_errors / KeyboardInterrupt raised by a validation hook / a foreign exception
+raised by an extra validator at an element end / an abandoned lazy error generator / KeyboardInterrupt injected
+between two statements of the xsi:type block) over pools of documents (xsi:type + identity constraints,
+wildcards, substitution groups, fixed values, ID/IDREF, XSD 1.1 assertions) are run on ONE shared schema object.
+After every call
 
-  * the result (verdict, errors as (class, path, reason), decoded data / encoded XML) is compared with the
-    result of the same call on a FRESH schema object            -> the property itself, on the real code;
-  * the observable residue of the shared object (`xsi_types` of every element declaration, additions to
-    `identity.elements` of every constraint) is compared with the residue the Lean model
-    (XsVerif/Model/History.lean, `after … gated=true`) computes for the same history from the residue-relevant
-    steps of each call (xsi:type uses with the set of enabled constraints, extracted from the real walk with a
-    validation hook; aborted calls contribute the prefix they processed)   -> correspondence I <-> M.
+  * the result (verdict, errors as (class, path, reason), decoded data / encoded XML, or the exception) is
+    compared with the result of the same call on a FRESH schema object       -> the property itself, on the real code;
+  * the walk of the call is observed by two probes (the validation hook at every element start, an extra
+    validator at every element end; both read `context.identities` from the frame of `raw_decode`): the counters
+    (constraint, enabled) in dict order and the constraints of `selected_by` that collect fields at each element
+    end are compared with the observations the Lean model (XsVerif/Model/History.lean, `call … .current`) computes
+    for the steps of that call after the model's residue of the history         -> correspondence I <-> M (reads);
+  * the residue of the shared object — `xsi_types` (types and (type, constraint) pairs), additions to
+    `identity.elements` and to `selected_by` — is compared with the model's residue after the same history
+    (aborted calls contribute the prefix they processed; calls aborted inside the xsi:type block a budget of
+    writes)                                                                  -> correspondence I <-> M (writes);
+  * on a sample of the histories a deep fingerprint of the whole object graph of the schema (harness/lib_c10.py)
+    is taken before and after every call: every attribute that changed must be one the model accounts for
+    (the three above, lru cache sizes growing, lazily computed attributes written once, the clearable fields of
+    the scratch validation context)                                          -> nothing else is residue.
 
-A difference between shared and fresh results is a failing input unless the Lean model of the code as it is
-predicts a difference for that document after that history (finding C10-F1, exact rule in `known_match`).
+A difference between shared and fresh results is a failing input unless it matches a listed finding
+(`known_match`): C10-F2 = the model of the code as it is predicts the difference for that document after that
+history (the document is not self-sufficient); C10-F3 = a namespace was loaded on demand by a wildcard.
 """
 from __future__ import annotations
 
 import json
 import re
+import sys
 from typing import Any, Optional
 from xml.etree import ElementTree as ET
 
 from harness.core import Ctx, Driver, VERIF
+from harness import lib_c10
 
 PROPS = 'XsVerif.Props.C10'
 AUDIT = 'XsVerif.Audit.C10'
 LEAN_TARGETS = ['XsVerif.Props.C10', 'drv_c10']
-LEANCHECK = ['XsVerif.Model.History', 'XsVerif.Props.C10']
+LEANCHECK = ['XsVerif.Model.History', 'XsVerif.Lemmas.History', 'XsVerif.Props.C10']
 RULE = ('a case is one (schema pool, history of (operation, document) calls) pair, every call of it is compared with '
         'a fresh schema object; non-trivial = the history contains at least one aborted or invalid call and at least '
         'one call whose document uses xsi:type inside an identity-constraint scope (or, for pools without xsi:type, an '
         'invalid document followed by a valid one); distinct by canonical JSON of the history')
-TRUSTED = ['the residue-relevant steps of a call (xsi:type uses and the constraints enabled at that point) are extracted '
-           'from the real walk by a validation hook; `widen` (what update_elements adds for a declaration/type pair) is '
-           'evaluated read-only with the library\'s own selector tokens on a separate fresh schema object',
-           'memo caches and the scratch validation context are modelled (theorems) but only observed through results']
-ASSUMPTIONS = ['hypothesis SelfSufficient of history_neutral: an element reachable only through an xsi:type substitution '
-               'occurs below an element carrying that xsi:type inside the constraint\'s scope (true of every valid instance)']
+TRUSTED = ['the steps of a call (element starts/ends with their declarations, usable xsi:type uses) are extracted from the '
+           'real walk by a validation hook and an extra validator; `widen` (what update_elements selects for a '
+           'declaration/type pair) is evaluated read-only with the library\'s own selector tokens on a separate fresh '
+           'schema object; for lazy runs the counters at each element start/end are taken from the walk (setCtx steps)',
+           'memo caches are modelled (theorems) and observed as sizes / write-once attributes by the fingerprint, their '
+           'values only through results; on-demand namespace loading (finding C10-F3) is outside the model']
+ASSUMPTIONS = ['guard selfSufficient of history_neutral_partial (decidable, evaluated by the driver for every call): an element '
+               'reachable through an xsi:type substitution occurs inside a constraint\'s scope only below an element '
+               'carrying that xsi:type; neutral_iff_selfSufficient proves the guard is exact for the model, documents '
+               'outside it are listed finding C10-F2']
 FINDINGS_FILE = VERIF / 'notes' / 'findings' / 'C10.json'
 XSI = 'http://www.w3.org/2001/XMLSchema-instance'
 XS = 'http://www.w3.org/2001/XMLSchema'
+XHTML = 'http://www.w3.org/1999/xhtml'
+DUMMY = 100000          # declarations created on the fly (no component of the schema)
 
 # ------------------------------------------------------------------------------------------------
 # pools
 # ------------------------------------------------------------------------------------------------
 S1 = f'''<xs:schema xmlns:xs="{XS}">
 <xs:element name="root"><xs:complexType><xs:choice minOccurs="0" maxOccurs="unbounded">
-  <xs:element name="secA"><xs:complexType><xs:sequence><xs:element ref="item" minOccurs="0" maxOccurs="unbounded"/></xs:sequence></xs:complexType>
+  <xs:element name="secA"><xs:complexType><xs:sequence><xs:element ref="item" minOccurs="0" maxOccurs="unbounded"/>
+        <xs:element ref="head2" minOccurs="0" maxOccurs="unbounded"/>
+        <xs:element name="wrap" minOccurs="0"><xs:complexType><xs:sequence>
+           <xs:any namespace="##any" processContents="lax" minOccurs="0" maxOccurs="unbounded"/></xs:sequence></xs:complexType></xs:element>
+     </xs:sequence></xs:complexType>
      <xs:unique name="ua"><xs:selector xpath=".//x"/><xs:field xpath="@v"/></xs:unique></xs:element>
   <xs:element name="secB"><xs:complexType><xs:sequence><xs:element ref="item" minOccurs="0" maxOccurs="unbounded"/>
         <xs:element name="other" type="Ext2" minOccurs="0"/></xs:sequence></xs:complexType>
@@ -64,6 +88,9 @@ S1 = f'''<xs:schema xmlns:xs="{XS}">
 <xs:element name="item" type="Base"/>
 <xs:element name="head" type="Base" block="substitution"/>
 <xs:element name="memb" type="Ext" substitutionGroup="head"/>
+<xs:element name="head2" type="Base"/>
+<xs:element name="memb2" type="Ext" substitutionGroup="head2"/>
+<xs:element name="glob" type="Ext"/>
 <xs:complexType name="Base"><xs:sequence/><xs:attribute name="n" type="xs:decimal"/></xs:complexType>
 <xs:complexType name="Ext"><xs:complexContent><xs:extension base="Base"><xs:sequence>
    <xs:element name="x" maxOccurs="unbounded"><xs:complexType><xs:attribute name="v" type="xs:integer"/></xs:complexType></xs:element>
@@ -109,6 +136,10 @@ D1 = [
     _root('<nl xsi:nil="true"/><nl xsi:nil="true">5</nl><nl>6</nl>'),
     _root('<memb><x v="1"/></memb>'),                                                   # substitution blocked by the head
     _root('<head/>'),
+    # NOT self-sufficient documents (finding C10-F2): x reaches the scope of ua without an xsi:type
+    _root('<secA><memb2><x v="1"/><x v="1"/></memb2></secA>'),                           # through a substitution group member
+    _root('<secA><wrap><glob><x v="2"/><x v="2"/></glob></wrap></secA>'),                # through a lax wildcard
+    _root('<secA><wrap><unk xsi:type="Ext"><x v="4"/><x v="4"/></unk></wrap></secA>'),   # xsi:type on an element created on the fly
 ]
 
 S2 = f'''<xs:schema xmlns:xs="{XS}" xmlns:vc="http://www.w3.org/2007/XMLSchema-versioning" elementFormDefault="qualified">
@@ -150,8 +181,17 @@ D2 = [
     _doc(''),
 ]
 
-POOLS = [('xsi+identity+wildcard+fixed+ID (1.0)', '1.0', S1, D1), ('assert+fixed+wildcard+keyref+xsi (1.1)', '1.1', S2, D2)]
-OPS = ['is_valid', 'iter_errors', 'validate', 'decode', 'decode_strict', 'to_objects', 'encode', 'stop', 'lazy']
+POOLS = [('xsi+identity+wildcard+substitution+fixed+ID (1.0)', '1.0', S1, D1),
+         ('assert+fixed+wildcard+keyref+xsi (1.1)', '1.1', S2, D2)]
+OPS = ['is_valid', 'iter_errors', 'validate', 'decode', 'decode_strict', 'to_objects', 'encode', 'stop', 'lazy',
+       'kbint', 'exv', 'abandon']
+ABORT_OPS = ('stop', 'kbint', 'exv', 'abandon', 'tabort')
+
+# finding C10-F3: documents whose wildcard content is in a namespace that has a (fallback) location
+_H = f'<open><h:p xmlns:h="{XHTML}">t</h:p></open>'
+F3_DOCS = [_root(_H + '<secA>' + _item('Ext', [1, 1]) + '</secA>'),
+           _root(_H),
+           f'<h:p xmlns:h="{XHTML}">t</h:p>']
 
 
 def make_schema(version: str, text: str):
@@ -163,6 +203,10 @@ def make_schema(version: str, text: str):
 # canonical results
 # ------------------------------------------------------------------------------------------------
 ADDR = re.compile(r' at 0x[0-9a-fA-F]+')
+
+
+class Foreign(BaseException):
+    """raised by the probes of the `exv` / `tabort` operations: not an Exception, not a library error"""
 
 
 def canon_err(e) -> list:
@@ -183,38 +227,81 @@ def canon_obj(o: Any) -> Any:
         return ADDR.sub('', repr(o))
 
 
-def perform(schema, op: str, xml: str, stop_at: int, counter: Optional[list] = None, encode_src: Any = None) -> Any:
-    """run one operation; returns a canonical, comparable result.  `counter` receives the number of elements
-    whose processing started (validation hook)."""
-    import xmlschema
-    from xmlschema import XMLSchemaStopValidation
+class Probe:
+    """events of one call: ('s', elem, xsd_element, ctx_before) at every element start and
+    ('e', elem, xsd_element, ctx, gate, xsd_type) at every element end"""
 
-    n = [0]
+    def __init__(self, op: str, stop_at: int):
+        self.op, self.stop_at = op, stop_at
+        self.events: list = []
+        self.started = 0
+        self.ended = 0
+        self.tabort_log: list = []
 
-    def hook(elem, xsd_element):
-        n[0] += 1
-        if op == 'stop' and n[0] >= stop_at:
+    @staticmethod
+    def snapshot(context) -> list:
+        return [(ident, bool(counter.enabled)) for ident, counter in context.identities.items()]
+
+    def hook(self, elem, xsd_element):
+        from xmlschema import XMLSchemaStopValidation
+        self.started += 1
+        if self.op == 'stop' and self.started >= self.stop_at:
             raise XMLSchemaStopValidation()
+        if self.op == 'kbint' and self.started >= self.stop_at:
+            raise KeyboardInterrupt()
+        context = sys._getframe(1).f_locals.get('context')
+        self.events.append(('s', elem, xsd_element, self.snapshot(context) if context is not None else None))
         return False
 
+    def extra(self, elem, xsd_element):
+        loc = sys._getframe(1).f_locals
+        context = loc.get('context')
+        snap = self.snapshot(context) if context is not None else None
+        enabled = {i for i, en in snap if en} if snap is not None else set()
+        gate = [i for i in xsd_element.selected_by if i in enabled]
+        self.events.append(('e', elem, xsd_element, snap, gate, loc.get('xsd_type')))
+        self.ended += 1
+        if self.op == 'exv' and self.ended >= self.stop_at:
+            raise Foreign()
+        return None
+
+
+def perform(schema, op: str, xml: str, stop_at: int, probe: Optional[Probe] = None, encode_src: Any = None) -> Any:
+    """run one operation; returns a canonical, comparable result"""
+    import xmlschema
+
+    p = probe if probe is not None else Probe(op, stop_at)
+    kw = {'validation_hook': p.hook, 'extra_validator': p.extra}
     try:
         if op == 'is_valid':
-            out: Any = ['verdict', bool(schema.is_valid(xml, validation_hook=hook))]
-        elif op in ('iter_errors', 'stop'):
-            out = ['errors', sorted(canon_err(e) for e in schema.iter_errors(xml, validation_hook=hook))]
+            out: Any = ['verdict', bool(schema.is_valid(xml, **kw))]
+        elif op in ('iter_errors', 'stop', 'kbint', 'exv'):
+            out = ['errors', sorted(canon_err(e) for e in schema.iter_errors(xml, **kw))]
+        elif op == 'tabort':
+            out = tabort(schema, xml, stop_at, p, kw)
         elif op == 'lazy':
             res = xmlschema.XMLResource(xml, lazy=True)
-            out = ['errors', sorted(canon_err(e) for e in schema.iter_errors(res, validation_hook=hook))]
+            out = ['errors', sorted(canon_err(e) for e in schema.iter_errors(res, **kw))]
+        elif op == 'abandon':
+            res = xmlschema.XMLResource(xml, lazy=True)
+            gen = schema.iter_errors(res, **kw)
+            got = []
+            for e in gen:
+                got.append(canon_err(e))
+                if len(got) >= stop_at:
+                    break
+            gen.close()
+            out = ['errors-abandoned', got]
         elif op == 'validate':
-            schema.validate(xml, validation_hook=hook)
+            schema.validate(xml, **kw)
             out = ['ok']
         elif op == 'decode':
-            data, errs = schema.decode(xml, validation='lax', validation_hook=hook)
+            data, errs = schema.decode(xml, validation='lax', **kw)
             out = ['data', canon_data(data), sorted(canon_err(e) for e in errs)]
         elif op == 'decode_strict':
-            out = ['data', canon_data(schema.decode(xml, validation_hook=hook))]
+            out = ['data', canon_data(schema.decode(xml, **kw))]
         elif op == 'to_objects':
-            obj, errs = schema.to_objects(xml, validation='lax', validation_hook=hook)
+            obj, errs = schema.to_objects(xml, validation='lax', **kw)
             out = ['objects', canon_obj(obj), sorted(canon_err(e) for e in errs)]
         elif op == 'encode':
             elem, errs = schema.encode(encode_src, validation='lax')
@@ -224,144 +311,219 @@ def perform(schema, op: str, xml: str, stop_at: int, counter: Optional[list] = N
             raise ValueError(op)
     except xmlschema.XMLSchemaException as e:
         out = ['raised', canon_err(e)]
+    except (KeyboardInterrupt, Foreign) as e:
+        out = ['aborted', type(e).__name__]
     except (KeyError, AttributeError, TypeError, ValueError) as e:
         # not a library error (e.g. KeyError in lazy identity merging): for C10 only sameness matters
         out = ['raised', ['foreign:' + type(e).__name__, '', ADDR.sub('', str(e))[:200]]]
-    if counter is not None:
-        counter.append(n[0])
+    return out
+
+
+# ---- KeyboardInterrupt between two statements of the xsi:type block --------------------------------
+_XSI_LINES: dict = {}
+
+
+def xsi_block_lines() -> dict:
+    """line numbers of the statements of the block, found in the source of the tree under check"""
+    if not _XSI_LINES:
+        import inspect
+        from xmlschema.validators.elements import XsdElement
+        src, first = inspect.getsourcelines(XsdElement.raw_decode)
+        for k, line in enumerate(src):
+            s = line.strip()
+            if s.startswith('counter.identity.update_elements('):
+                _XSI_LINES['update'] = first + k
+            elif s.startswith('self.xsi_types.add((xsd_type, counter.identity))'):
+                _XSI_LINES['pair'] = first + k
+            elif s.startswith('if xsd_type not in self.xsi_types'):
+                _XSI_LINES['type'] = first + k
+        _XSI_LINES['code'] = XsdElement.raw_decode.__code__
+    return _XSI_LINES
+
+
+def tabort(schema, xml: str, nth: int, p: Probe, kw: dict) -> Any:
+    """iter_errors with a trace function that raises KeyboardInterrupt just BEFORE the nth execution of one of
+    the three statements `update_elements(…)`, `xsi_types.add((type, identity))`, `if type not in xsi_types`"""
+    lines = xsi_block_lines()
+    want = {lines.get('update'), lines.get('pair'), lines.get('type')} - {None}
+    code = lines['code']
+    seen = [0]
+    log: list = []
+
+    def local(frame, event, arg):
+        if event == 'line' and frame.f_lineno in want:
+            seen[0] += 1
+            kind = [k for k in ('update', 'pair', 'type') if lines.get(k) == frame.f_lineno][0]
+            log.append(kind)
+            if seen[0] >= nth:
+                sys.settrace(None)
+                raise KeyboardInterrupt()
+        return local
+
+    def tracer(frame, event, arg):
+        return local if frame.f_code is code else None
+
+    sys.settrace(tracer)
+    try:
+        out = ['errors', sorted(canon_err(e) for e in schema.iter_errors(xml, **kw))]
+    finally:
+        sys.settrace(None)
+        p.tabort_log = log
     return out
 
 
 # ------------------------------------------------------------------------------------------------
-# residue: observation on the real object, and the steps of a document for the model
+# residue: observation on the real object, and the steps of a call for the model
 # ------------------------------------------------------------------------------------------------
 class Pool:
     def __init__(self, name: str, version: str, xsd: str, docs: list[str]):
-        from xmlschema.validators import XsdElement
-        from xmlschema.validators.identities import XsdIdentity
         self.name, self.version, self.xsd, self.docs = name, version, xsd, docs
         self.ref = make_schema(version, xsd)           # never used for validation: introspection only
-        comps = list(self.ref.iter_components())
-        self.n = len(comps)
-        self.idents_idx = [i for i, c in enumerate(comps) if isinstance(c, XsdIdentity)]
-        self.elems_idx = [i for i, c in enumerate(comps) if isinstance(c, XsdElement)]
-        self.base = self.observe(self.ref)['bound_all']
+        self.ncomp = len(list(self.ref.iter_components()))
+        self.base = self.observe(self.ref, self.index(self.ref), raw=True)
+        self.clean = make_schema(version, xsd)         # read-only evaluation of `widen`
+        self.ccomps = list(self.clean.iter_components())
+        self.cidx = self.index(self.clean)
         self.fresh_cache: dict = {}
-        self.steps_cache: dict = {}
         self.widen: dict = {}
         self.complex: set = set()
+        self.dummies: dict = {}
 
-    def index(self, schema) -> dict:
+    @staticmethod
+    def index(schema) -> dict:
         return {id(c): i for i, c in enumerate(schema.iter_components())}
 
-    def key(self, idx: dict, e) -> int:
+    @staticmethod
+    def key(idx: dict, e) -> Optional[int]:
         e = e.ref if getattr(e, 'ref', None) is not None else e
-        return idx[id(e)]
+        return idx.get(id(e))
 
-    def observe(self, schema) -> dict:
+    def decl(self, idx: dict, xe) -> int:
+        k = self.key(idx, xe)
+        if k is not None:
+            return k
+        name = getattr(xe, 'name', None) or '?'
+        if name not in self.dummies:
+            self.dummies[name] = DUMMY + len(self.dummies)
+        return self.dummies[name]
+
+    def observe(self, schema, idx: dict, raw: bool = False) -> dict:
+        """the identity-related residue of a schema object"""
         comps = list(schema.iter_components())
-        idx = {id(c): i for i, c in enumerate(comps)}
-        xsi = set()
-        for i in self.elems_idx if hasattr(self, 'elems_idx') else range(len(comps)):
-            e = comps[i]
-            if getattr(e, 'ref', None) is None and hasattr(e, 'xsi_types'):
-                for t in e.xsi_types:
-                    if id(t) in idx:          # (the proposed repair also stores (type, identity) pairs here)
-                        xsi.add((i, idx[id(t)]))
-        bound = set()
+        types, pairs, elems, sel = set(), set(), set(), set()
         for i, c in enumerate(comps):
+            if hasattr(c, 'xsi_types') and getattr(c, 'ref', None) is None:
+                for t in c.xsi_types:
+                    if isinstance(t, tuple):
+                        if id(t[0]) in idx and id(t[1]) in idx:
+                            pairs.add((i, idx[id(t[0])], idx[id(t[1])]))
+                    elif id(t) in idx:
+                        types.add((i, idx[id(t)]))
+                for ident in c.selected_by:
+                    if id(ident) in idx:
+                        sel.add((idx[id(ident)], i))
             if hasattr(c, 'selector') and hasattr(c, 'elements') and hasattr(c, 'fields'):
                 for e in c.elements:
-                    bound.add((i, self.key(idx, e)))
-        base = getattr(self, 'base', set())
-        return {'xsi': sorted(xsi), 'bound': sorted(bound - base), 'bound_all': bound}
+                    k = self.key(idx, e)
+                    if k is not None:
+                        elems.add((i, k))
+        if raw:
+            return {'elems': elems, 'sel': sel}
+        return {'types': sorted(types), 'pairs': sorted(pairs), 'elems': sorted(elems - self.base['elems']),
+                'sel': sorted(sel - self.base['sel'])}
 
-    def steps(self, di: int) -> tuple[list, list]:
-        """residue-relevant steps of document di, from the walk of a fresh schema object:
-        returns (steps, positions) where positions[k] = number of steps processed once the first k
-        elements have been started (and everything before the (k+1)-th)."""
-        if di in self.steps_cache:
-            return self.steps_cache[di]
-        from elementpath import XPathContext
-        from xmlschema.validators import XsdElement
-        from xmlschema.xpath import XPathElement
-        schema = make_schema(self.version, self.xsd)
-        idx = self.index(schema)
-        comps = list(schema.iter_components())
-        root = ET.fromstring(self.docs[di])
-        pairs: dict = {}
-        order: list = []
+    def widen_of(self, c: int, d: int, ti: int, name: str) -> list:
+        """declarations `update_elements(XPathElement(name, type))` selects for constraint c (read-only port of
+        identities.py:217-226 on the clean schema object, with the library's own selector token)"""
+        if (c, d, ti) not in self.widen:
+            from elementpath import XPathContext
+            from xmlschema.validators import XsdElement
+            from xmlschema.xpath import XPathElement
+            ident = self.ccomps[c]
+            xp = XPathElement(name, self.ccomps[ti])
+            xctx = XPathContext(self.clean.xpath_node, item=xp.xpath_node)
+            got = []
+            if ident.selector is not None:
+                for r in ident.selector.token.select_results(xctx):
+                    if isinstance(r, XsdElement) and r.name is not None:
+                        k = self.key(self.cidx, r)
+                        if k is not None:
+                            got.append(k)
+            self.widen[(c, d, ti)] = sorted(set(got))
+        return self.widen[(c, d, ti)]
 
-        def hook(elem, xe):
-            if id(elem) not in pairs:
-                pairs[id(elem)] = xe
-                order.append(elem)
-            return False
-
-        list(schema.iter_errors(root, validation_hook=hook))
-        # a second untouched object for evaluating `widen`
-        clean = make_schema(self.version, self.xsd)
-        ccomps = list(clean.iter_components())
-        cidx = self.index(clean)
+    def steps_of(self, schema, idx: dict, probe: Probe, lazy: bool) -> tuple[list, list, list]:
+        """model steps of a call from its own events; returns (steps, real observations at element ends,
+        index in `steps` of the xsi step of every started element or None)"""
+        from xmlschema.validators.identities import XsdKeyref, XsdIdentity
         steps: list = []
-        started_at: dict = {}
+        real: list = []
+
+        def snap(s):
+            return [[idx.get(id(i), -1), en] for i, en in s]
+
+        for ev in probe.events:
+            if ev[0] == 's':
+                _, elem, xe, before = ev
+                d = self.decl(idx, xe)
+                ids = [idx[id(i)] for i in xe.identities if id(i) in idx]
+                if lazy and before is not None:
+                    steps.append(['s', snap(before)])
+                steps.append(['e', ids])
+                tname = elem.attrib.get('{%s}type' % XSI)
+                if tname is not None and xe.schema.meta_schema is not None:
+                    cxe = self.ccomps[idx[id(xe)]] if id(xe) in idx and idx[id(xe)] < len(self.ccomps) else xe
+                    t = self.instance_type(cxe, tname)
+                    if t is not None and id(t) in self.cidx:
+                        ti = self.cidx[id(t)]
+                        if t.has_complex_content():
+                            self.complex.add(ti)
+                            for c, en in (before or []) + [(i, True) for i in xe.identities]:
+                                if id(c) in idx:
+                                    self.widen_of(idx[id(c)], d, ti, xe.name)
+                        steps.append(['x', d, ti, None])
+            else:
+                _, elem, xe, ctxs, gate, _t = ev
+                d = self.decl(idx, xe)
+                if lazy and ctxs is not None:
+                    steps.append(['s', snap(ctxs)])
+                steps.append(['c', d])
+                real.append({'ctx': snap(ctxs or []), 'gate': sorted(idx.get(id(i), -1) for i in gate)})
+                if not lazy:
+                    lv = []
+                    for i in xe.identities:
+                        if id(i) not in idx:
+                            continue
+                        refer = None
+                        if isinstance(i, XsdKeyref) and isinstance(i.refer, XsdIdentity) and id(i.refer) in idx:
+                            refer = idx[id(i.refer)]
+                        lv.append([idx[id(i)], refer])
+                    steps.append(['l', lv])
+        return steps, real
+
+    def instance_type(self, xe, tname: str):
+        """the type a usable xsi:type selects (None: unknown, not derived, or blocked) — evaluated on the clean
+        schema object so that the caches of the object under observation are not touched"""
         nsmap = {'xsi': XSI}
+        try:
+            t = self.clean.maps.get_instance_type(tname.strip(), xe.type, nsmap)
+        except (KeyError, TypeError):
+            return None
+        try:
+            if t.is_blocked(xe):
+                return None
+        except Exception:
+            return None
+        return t
 
-        def walk(e, open_cons):
-            xe = pairs.get(id(e))
-            if xe is None:
-                return
-            if id(xe.ref if getattr(xe, 'ref', None) is not None else xe) not in idx:
-                return          # element built on the fly (lax wildcard content): no declaration of the schema
-            started_at[id(e)] = len(steps)
-            cons = open_cons + [idx[id(c)] for c in xe.identities]
-            d = self.key(idx, xe)
-            tname = e.attrib.get('{%s}type' % XSI)
-            if tname is not None:
-                try:
-                    t = schema.maps.get_instance_type(tname.strip(), xe.type, nsmap)
-                    usable = not t.is_blocked(xe)
-                except (KeyError, TypeError):
-                    usable = False
-                if usable:
-                    ti = idx[id(t)]
-                    if t.has_complex_content():
-                        self.complex.add(ti)
-                    for c in cons:
-                        if (c, d, ti) not in self.widen:
-                            ident = ccomps[c]
-                            ct = ccomps[ti]
-                            xp = XPathElement(ccomps[d].name, ct)
-                            ctx = XPathContext(clean.xpath_node, item=xp.xpath_node)
-                            got = []
-                            for r in ident.selector.token.select_results(ctx):
-                                if isinstance(r, XsdElement) and r.name is not None:
-                                    got.append(self.key(cidx, r))
-                            self.widen[(c, d, ti)] = sorted(set(got))
-                    steps.append(['x', d, ti, cons])
-            for k in e:
-                walk(k, cons)
-            for c in cons:
-                steps.append(['c', d, c])
-
-        walk(root, [])
-        positions = [0]
-        for k, e in enumerate(order):
-            nxt = started_at.get(id(order[k + 1]), None) if k + 1 < len(order) else None
-            positions.append(nxt if nxt is not None else len(steps))
-        # positions[k] for k started elements: steps strictly before element k+1 starts; the xsiType step of the
-        # k-th element itself is at started_at[k]
-        self.steps_cache[di] = (steps, [started_at.get(id(e), 0) for e in order] + [len(steps)])
-        return self.steps_cache[di]
-
-    def fresh(self, op: str, di: int, stop_at: int) -> Any:
-        key = (op, di, stop_at if op == 'stop' else 0)
+    def fresh(self, op: str, di: int, stop_at: int, xml: Optional[str] = None) -> Any:
+        key = (op, di, stop_at if op in ABORT_OPS else 0)
         if key not in self.fresh_cache:
             schema = make_schema(self.version, self.xsd)
             src = None
             if op == 'encode':
                 src = self.encode_source(di)
-            self.fresh_cache[key] = perform(schema, op, self.docs[di], stop_at, None, src)
+            self.fresh_cache[key] = perform(schema, op, xml if xml is not None else self.docs[di], stop_at, None, src)
         return self.fresh_cache[key]
 
     def encode_source(self, di: int) -> Any:
@@ -374,41 +536,98 @@ class Pool:
 
     def sch_json(self) -> dict:
         return {'complex': sorted(self.complex),
-                'widen': [[c, d, t, w] for (c, d, t), w in sorted(self.widen.items())],
-                'base': []}
+                'wtab': [[c, d, t, w] for (c, d, t), w in sorted(self.widen.items())],
+                'base': sorted([c, d] for c, d in self.base['sel'])}
 
 
-def processed_steps(pool: Pool, op: str, di: int, started: int, raised: bool, stop_at: int = 0) -> list:
-    """the steps of document di a call has processed, given how many elements were started"""
-    steps, starts = pool.steps(di)
-    if op == 'encode':
-        return []
-    nel = len(starts) - 1
-    if op == 'stop' and started < stop_at:
-        return steps                          # the hook never fired
-    if op == 'stop' and started <= nel and started >= 1:
-        cut = starts[started - 1]             # the hook raised before the xsi:type block of that element
-        return [s for s in steps[:cut] if s[0] == 'x']
-    if raised and 1 <= started <= nel:
-        # strict failure: everything up to and including the xsi:type step of the last started element
-        cut = starts[started - 1]
-        pre = steps[:cut]
-        if cut < len(steps) and steps[cut][0] == 'x':
-            pre = pre + [steps[cut]]
-        return [s for s in pre if s[0] == 'x']
-    return steps
+# ------------------------------------------------------------------------------------------------
+# python mirror of Model/History.lean (mode current): fallback without the driver, and write budgets
+# ------------------------------------------------------------------------------------------------
+class PyModel:
+    def __init__(self, pool: Pool):
+        self.pool = pool
+        self.types: set = set()
+        self.pairs: set = set()
+        self.elems: set = set()
+        self.sel: set = set()
+
+    def xsi_writes(self, ctx: list, d: int, t: int) -> list:
+        ws: list = []
+        pairs = set(self.pairs)
+        if t in self.pool.complex:
+            for c, en in ctx:
+                if not en or (d, t, c) in pairs:
+                    continue
+                for d2 in self.pool.widen.get((c, d, t), []):
+                    ws.append(('elem', c, d2))
+                    ws.append(('sel', c, d2))
+                ws.append(('pair', d, t, c))
+                pairs.add((d, t, c))
+        ws.append(('type', d, t))
+        return ws
+
+    def apply(self, w: tuple) -> None:
+        if w[0] == 'elem':
+            self.elems.add((w[1], w[2]))
+        elif w[0] == 'sel':
+            self.sel.add((w[1], w[2]))
+        elif w[0] == 'pair':
+            self.pairs.add((w[1], w[2], w[3]))
+        else:
+            self.types.add((w[1], w[2]))
+
+    def run(self, steps: list, write: bool = True) -> list:
+        """observations [(ctx, gate)] of a call"""
+        ctx: list = []
+        obs = []
+        base = self.pool.base['sel']
+        self.ctx_at_x: list = []
+        for s in steps:
+            if s[0] == 'e':
+                for c in s[1]:
+                    if any(p[0] == c for p in ctx):
+                        ctx = [[c, True] if p[0] == c else p for p in ctx]
+                    else:
+                        ctx = ctx + [[c, True]]
+            elif s[0] == 'x':
+                self.ctx_at_x = [list(p) for p in ctx]
+                self.writes_at_x = ws = self.xsi_writes(ctx, s[1], s[2])
+                if s[3] is not None:
+                    ws = ws[:s[3]]
+                for w in ws:
+                    self.apply(w)
+            elif s[0] == 'c':
+                obs.append({'ctx': [list(p) for p in ctx],
+                            'gate': sorted({c for c, en in ctx if en and ((c, s[1]) in base or (c, s[1]) in self.sel)})})
+            elif s[0] == 'l':
+                for c, refer in s[1]:
+                    ctx = [[c, False] if p[0] == c else p for p in ctx]
+                    if refer is not None and not any(p[0] == refer for p in ctx):
+                        ctx = ctx + [[refer, False]]
+            elif s[0] == 's':
+                ctx = [list(p) for p in s[1]]
+        return obs
+
+    def copy(self) -> 'PyModel':
+        m = PyModel(self.pool)
+        m.types, m.pairs, m.elems, m.sel = set(self.types), set(self.pairs), set(self.elems), set(self.sel)
+        return m
 
 
 # ------------------------------------------------------------------------------------------------
 # findings
 # ------------------------------------------------------------------------------------------------
 def known_match(case: dict, detail: dict) -> Optional[str]:
-    """C10-F1: the result of a call differs from the fresh result AND the Lean model of the code as it is
-    predicts, for this document after this history, a `collect` observation that differs from the fresh
-    one (an element made reachable by xsi:type is not bound to a constraint because the (declaration, type)
-    pair is already in xsi_types), while the repaired algorithm predicts no difference."""
-    if detail.get('model_predicts_difference') and detail.get('repaired_predicts_difference') is False:
-        return 'C10-F1'
+    """C10-F3: the result of a call differs from the fresh result AND a namespace has been loaded on demand
+    into the shared schema object by this call or an earlier call of the history (its set of loaded namespaces
+    is larger than that of a schema object that validated nothing).
+    C10-F2: the result differs AND the Lean model of the code as it is predicts, for the steps of this call
+    after this history, a `collect` observation that differs from the fresh one, and the driver's evaluation of
+    the guard `selfSufficient` on those steps is false."""
+    if detail.get('namespaces_loaded'):
+        return 'C10-F3'
+    if detail.get('model_predicts_difference') and detail.get('self_sufficient') is False:
+        return 'C10-F2'
     return None
 
 
@@ -421,97 +640,222 @@ def load_findings(ctx: Ctx) -> None:
 
 
 # ------------------------------------------------------------------------------------------------
+# fingerprint classification (what else is residue?)
+# ------------------------------------------------------------------------------------------------
+B_ATTRS = ('.xsi_types', '.selected_by')
+SCRATCH_CLEARED = ('errors', 'id_map', 'identities', 'inherited', 'level', 'elem', 'attribute', 'id_list', 'patterns')
+IDENT_CLASSES = ('XsdUnique', 'XsdKey', 'XsdKeyref', 'Xsd11Unique', 'Xsd11Key', 'Xsd11Keyref')
+
+
+def classify_diff(d: dict) -> tuple[dict, list]:
+    """returns (counts by accounted kind, unexplained [(key, before, after)])"""
+    kinds: dict = {}
+    bad = []
+    for k, (a, b) in d.items():
+        attr = k.split(':', 1)[1]
+        cls, _, name = attr.partition('.')
+        if a == ['<absent>']:
+            kind = 'lazy attribute / new object (write-once)'
+        elif attr.endswith(B_ATTRS) or (cls in IDENT_CLASSES and name == 'elements'):
+            kind = 'xsi_types / selected_by / identity.elements'
+            if isinstance(a, list) and isinstance(b, list) and not all(x in b for x in a[1:]):
+                bad.append((k, a, b))        # something was removed
+                continue
+        elif attr == 'SchemaCache._caches':
+            sa = {repr(x[0]): x[1][1] for x in a[1:]}
+            sb = {repr(x[0]): x[1][1] for x in b[1:]}
+            if set(sa) != set(sb) or any(sb[f] < sa[f] for f in sa):
+                bad.append((k, a, b))
+                continue
+            kind = 'lru cache growth'
+        elif cls in ('ValidationContext',) and name in SCRATCH_CLEARED:
+            kind = 'scratch context (clearable field)'
+        elif name == '_is_fully_valid' and a is False and b is True:
+            kind = 'lazy flag (write-once)'
+        else:
+            bad.append((k, a, b))
+            continue
+        kinds[kind] = kinds.get(kind, 0) + 1
+    return kinds, bad
+
+
+# ------------------------------------------------------------------------------------------------
 # one history
 # ------------------------------------------------------------------------------------------------
-def run_history(ctx: Ctx, pi: int, pool: Pool, hist: list, drv: Optional[Driver], tag: str) -> None:
+def run_history(ctx: Ctx, pi: int, pool: Pool, hist: list, drv: Optional[Driver], tag: str, deep: bool = False,
+                docs: Optional[list] = None) -> None:
     try:
-        _run_history(ctx, pi, pool, hist, drv, tag)
+        _run_history(ctx, pi, pool, hist, drv, tag, deep, docs)
     except Exception as e:       # noqa: a clean tree never gets here: schema construction or the walk blew up
         import traceback
         ctx.failure('replaying the history raised an unexpected exception (schema construction or a call on a fresh '
                     'object failed after earlier use of the library)', {'pool': pi, 'history': hist},
-                    {'exception': repr(e)[:300], 'where': traceback.format_exc()[-600:]})
+                    {'exception': repr(e)[:300], 'where': traceback.format_exc()[-900:]})
 
 
-def _run_history(ctx: Ctx, pi: int, pool: Pool, hist: list, drv: Optional[Driver], tag: str) -> None:
-    """hist: list of [op, doc index, stop_at]"""
-    case = {'pool': pi, 'history': hist}
+def _run_history(ctx: Ctx, pi: int, pool: Pool, hist: list, drv: Optional[Driver], tag: str, deep: bool,
+                 docs: Optional[list]) -> None:
+    """hist: list of [op, doc index, stop_at]; `docs` overrides the pool's documents (finding families)"""
+    case: dict = {'pool': pi, 'history': hist}
+    if docs is not None:
+        case['docs'] = docs
+    docs = docs if docs is not None else pool.docs
     shared = make_schema(pool.version, pool.xsd)
+    idx = pool.index(shared)
+    ns0 = set(shared.maps.namespaces)
     model_hist: list = []
     reqs: list = []
     meta: list = []
-    uses_xsi = any('xsi:type' in pool.docs[di] for _, di, _ in hist)
+    uses_xsi = any('xsi:type' in docs[di] for _, di, _ in hist)
     bad_before_good = False
     seen_bad = False
+    namer = lib_c10.Namer() if deep else None
+    fp = lib_c10.fingerprint(shared, namer) if deep else None
+    lazy_keys: dict = {}
+    py = PyModel(pool)
     for step_no, (op, di, stop_at) in enumerate(hist):
-        cnt: list = []
+        probe = Probe(op, stop_at)
         src = pool.encode_source(di) if op == 'encode' else None
-        got = perform(shared, op, pool.docs[di], stop_at, cnt, src)
-        want = pool.fresh(op, di, stop_at)
-        raised = got[0] == 'raised'
-        invalid = raised or (got[0] == 'verdict' and not got[1]) or (got[0] in ('errors',) and got[1]) or \
+        got = perform(shared, op, docs[di], stop_at, probe, src)
+        want = pool.fresh(op, di, stop_at, docs[di]) if case.get('docs') is None else \
+            perform(make_schema(pool.version, pool.xsd), op, docs[di], stop_at, None, src)
+        loaded = sorted(set(shared.maps.namespaces) - ns0)
+        if loaded:
+            idx = pool.index(shared)            # the components were rebuilt (finding C10-F3)
+        raised = got[0] in ('raised', 'aborted')
+        invalid = raised or (got[0] == 'verdict' and not got[1]) or (got[0] in ('errors', 'errors-abandoned') and got[1]) or \
             (got[0] in ('data', 'objects', 'xml') and len(got) > 2 and got[2])
         if seen_bad and not invalid:
             bad_before_good = True
-        seen_bad = seen_bad or invalid or op == 'stop'
+        seen_bad = seen_bad or invalid or op in ABORT_OPS
         ctx.count('op:' + op)
-        ctx.count('result:' + got[0] + (':invalid' if invalid and got[0] != 'raised' else ''))
-        doc_steps = pool.steps(di)[0]
-        done = processed_steps(pool, op, di, cnt[0] if cnt else 0, raised, stop_at)
-        obs = pool.observe(shared)
+        ctx.count('result:' + got[0] + (':invalid' if invalid and not raised else ''))
+        lazy = op in ('lazy', 'abandon')
+        steps, real = pool.steps_of(shared, idx, probe, lazy)
+        if op == 'tabort' and steps and probe.tabort_log and got[0] == 'aborted':
+            # the call was aborted just before the last logged statement of the xsi block of the last started element
+            budget = tabort_budget(py, steps, probe.tabort_log)
+            if budget is not None:
+                for s in reversed(steps):
+                    if s[0] == 'x':
+                        s[3] = budget
+                        break
+                ctx.count('abort-inside-xsi-block:budget=%d' % budget)
+        obs = pool.observe(shared, idx)
         differs = got != want
         if differs:
             ctx.count('differs-from-fresh')
+        # fingerprint: everything else that changed
+        if deep and not loaded:
+            fp2 = lib_c10.fingerprint(shared, namer)
+            dd = lib_c10.diff(fp, fp2)
+            kinds, bad = classify_diff(dd)
+            for k, n in kinds.items():
+                ctx.count('residue:' + k, n)
+            ctx.count('fingerprints')
+            for k, a, b in bad[:3]:
+                ctx.mismatch('unexplained residue: attribute %s of the schema object graph changed during call %d (%s)'
+                             % (k.split(':', 1)[1], step_no, op), case, {'before': str(a)[:300], 'after': str(b)[:300]},
+                             'the model accounts for xsi_types / selected_by / identity.elements, cache growth, write-once '
+                             'lazy attributes and the clearable fields of the scratch context only')
+            for k, (a, b) in dd.items():
+                if a == ['<absent>'] and k not in lazy_keys:
+                    lazy_keys[k] = len(lazy_keys)
+                    steps.append(['m', lazy_keys[k]])
+            present = sorted(v for k, v in lazy_keys.items() if k in fp2)
+            fp = fp2
+        else:
+            present = None
+        py_obs = py.run(steps)
+        fresh_py = PyModel(pool).run(steps)
         if drv is not None:
-            reqs.append({'sch': None, 'hist': [list(h) for h in model_hist], 'doc': doc_steps if op != 'encode' else []})
-            meta.append((step_no, op, di, differs, got, want, obs, done))
-        elif differs:
-            judge(ctx, case, step_no, got, want,
-                  py_predict(pool, model_hist, doc_steps if op != 'encode' else [], True),
-                  py_predict(pool, model_hist, doc_steps if op != 'encode' else [], False))
-        model_hist.append(done)
+            reqs.append({'sch': None, 'hist': [list(h) for h in model_hist], 'doc': steps})
+            meta.append((step_no, op, di, differs, got, want, obs, real, loaded, present))
+        else:
+            cut = len(real)
+            if py_obs[:cut] != real and not loaded:
+                ctx.mismatch('observations of call %d (%s) [python mirror]' % (step_no, op), case, real, py_obs[:cut])
+            if differs:
+                judge(ctx, case, step_no, got, want, py_obs != fresh_py, None, loaded)
+        model_hist.append(steps)
     ctx.case(case, (uses_xsi and seen_bad) or bad_before_good, tag=tag)
     ctx.count('len:%d' % len(hist))
     if drv is not None:
         sj = pool.sch_json()
         for r in reqs:
             r['sch'] = sj
-        # the residue after the whole history as well: one extra request
         reqs.append({'sch': sj, 'hist': [list(h) for h in model_hist], 'doc': []})
         answers = drv.query(reqs)
         final = answers[-1]
-        for (step_no, op, di, differs, got, want, obs, done), ans in zip(meta, answers):
+        for (step_no, op, di, differs, got, want, obs, real, loaded, present), ans in zip(meta, answers):
             ctx.traces += 1
-            if 'err' in ans:
-                ctx.mismatch('driver error ' + str(ans['err']), case, None, ans)
+            if 'err' in ans or 'error' in ans:
+                ctx.mismatch('driver error ' + str(ans.get('err') or ans.get('error')), case, None, ans)
                 continue
-            # residue after this call = trace[step_no + 1] of the final answer
-            tkey = 'trace' if MODE['gated'] else 'trace_repaired'
-            tr = final[tkey][step_no + 1] if tkey in final else None
-            if tr is not None:
-                mres = {'xsi': [tuple(x) for x in tr['xsi']],
-                        'bound': sorted(set(tuple(x) for x in tr['bound']) - pool.base)}
-                ires = {'xsi': obs['xsi'], 'bound': obs['bound']}
-                if mres != ires:
-                    ctx.mismatch('residue after call %d (%s)' % (step_no, op), case, ires, mres)
+            if loaded:
+                ctx.count('namespace-loaded-on-demand (outside the model)')
+            else:
+                # writes: residue after this call = trace[step_no + 1] of the final answer
+                tr = final['trace'][step_no + 1]
+                bs = pool.base['sel']
+                mres = {'types': [tuple(x) for x in tr['types'] if x[0] < DUMMY],
+                        'pairs': [tuple(x) for x in tr['pairs'] if x[0] < DUMMY],
+                        'elems': sorted(set(tuple(x) for x in tr['elems']) - pool.base['elems']),
+                        'sel': sorted(set(tuple(x) for x in tr['sel']) - bs)}
+                if mres != obs:
+                    ctx.mismatch('residue after call %d (%s)' % (step_no, op), case, obs, mres)
+                if present is not None:
+                    ctx.traces += 1
+                    if tr['memo'] != present:
+                        ctx.mismatch('write-once attributes after call %d (%s)' % (step_no, op), case, present, tr['memo'])
+                # reads: what the call saw
+                mobs = [o for o in ans['obs'] if 'ctx' in o]
+                ctx.traces += 1
+                if mobs[:len(real)] != real or (op not in ABORT_OPS and got[0] != 'raised' and len(mobs) != len(real)):
+                    ctx.mismatch('observations (counters, collecting constraints) of call %d (%s)' % (step_no, op), case,
+                                 real[:40], mobs[:40])
+                ctx.count('element-end observations compared', len(real))
             pm = ans['obs'] != ans['fresh']
-            pr = ans['obs_repaired'] != ans['fresh_repaired']
-            if not MODE['gated']:
-                pm = pr                     # the tree runs the repaired algorithm: no listed deviation applies
             if pm:
                 ctx.count('model-predicts-difference')
+            if not ans['self_sufficient']:
+                ctx.count('call-not-self-sufficient')
             if differs:
-                judge(ctx, case, step_no, got, want, pm, pr)
+                judge(ctx, case, step_no, got, want, pm, ans['self_sufficient'], loaded)
             elif pm:
                 ctx.count('model-difference-not-observable')
 
 
-def judge(ctx: Ctx, case: dict, step_no: int, got: Any, want: Any, pm: Optional[bool], pr: Optional[bool]) -> None:
+def tabort_budget(py: PyModel, steps: list, log: list) -> Optional[int]:
+    """number of writes of the LAST xsi block done when the trace function raised: `log` = the statements of the
+    blocks reached so far in the whole call, the last one NOT executed"""
+    last = max((k for k, s in enumerate(steps) if s[0] == 'x'), default=None)
+    if last is None:
+        return None
+    m = py.copy()
+    m.run([list(s) for s in steps[:last + 1]])
+    ws = m.writes_at_x
+    tail = log[:]
+    while 'type' in tail[:-1]:            # statements of earlier (complete) blocks
+        tail = tail[tail.index('type') + 1:]
+    k = 0
+    for stmt in tail[:-1]:                # executed statements of this block
+        if stmt == 'update':
+            while k < len(ws) and ws[k][0] in ('elem', 'sel'):
+                k += 1
+        elif stmt == 'pair':
+            if k < len(ws) and ws[k][0] == 'pair':
+                k += 1
+    return k
+
+
+def judge(ctx: Ctx, case: dict, step_no: int, got: Any, want: Any, pm: Optional[bool], ss: Optional[bool],
+          loaded: list) -> None:
     detail = {'call': step_no, 'shared_schema_result': got, 'fresh_schema_result': want,
-              'model_predicts_difference': pm, 'repaired_predicts_difference': pr}
+              'model_predicts_difference': pm, 'self_sufficient': ss, 'namespaces_loaded': loaded}
     fid = known_match(case, detail)
     if fid:
-        ctx.known_hit(fid)
+        ctx.known_hit(fid, case, detail)
         ctx.count('known:' + fid)
     else:
         ctx.failure('call %d of the history gives a different result on the used schema object than on a fresh one'
@@ -528,43 +872,9 @@ def random_history(rng, pool: Pool, maxlen: int) -> list:
     return hist
 
 
-WITNESS = (0, [['iter_errors', 0, 1], ['iter_errors', 2, 1]])     # C10-F1: A then B
-MODE = {'gated': True}      # which algorithm the tree under check runs (decided by replaying the witness)
-
-
-def detect_mode(pool: 'Pool') -> None:
-    shared = make_schema(pool.version, pool.xsd)
-    for op, di, st in WITNESS[1]:
-        got = perform(shared, op, pool.docs[di], st)
-    MODE['gated'] = got != pool.fresh(op, di, st)
-
-
-def py_predict(pool: 'Pool', hist: list, doc: list, gated: bool) -> bool:
-    """fallback when the Lean driver is unavailable: does the residue model predict a differing `collect`
-    observation for `doc` after `hist`?  (same algorithm as Model/History.lean `step`)"""
-    def run(res, steps, out):
-        xsi, bound = res
-        for s in steps:
-            if s[0] == 'x':
-                _, d, t, en = s
-                seen = (d, t) in xsi
-                if gated and seen:
-                    continue
-                if t in pool.complex:
-                    for c in en:
-                        for d2 in pool.widen.get((c, d, t), []):
-                            bound.add((c, d2))
-                xsi.add((d, t))
-            elif s[0] == 'c' and out is not None:
-                out.append((s[2], s[1]) in bound or (s[2], s[1]) in pool.base)
-    res = (set(), set())
-    for h in hist:
-        run(res, h, None)
-    a: list = []
-    b: list = []
-    run(res, doc, a)
-    run((set(), set()), doc, b)
-    return a != b
+WITNESS_F1 = (0, [['iter_errors', 0, 1], ['iter_errors', 2, 1]])     # C10-F1 (fixed): A then B must now agree
+WITNESS_F2 = (0, [['iter_errors', 1, 1], ['iter_errors', 24, 1], ['is_valid', 25, 1]])
+WITNESS_F3 = [[['iter_errors', 0, 1], ['iter_errors', 0, 1]], [['is_valid', 1, 1], ['iter_errors', 2, 1]]]
 
 
 def run(ctx: Ctx, driver_ok: bool) -> None:
@@ -575,36 +885,51 @@ def run(ctx: Ctx, driver_ok: bool) -> None:
     if cdir.exists():
         for p in sorted(cdir.glob('*.json')):
             c = json.loads(p.read_text())
-            run_history(ctx, c['pool'], pools[c['pool']], c['history'], drv, 'corpus')
-    detect_mode(pools[WITNESS[0]])
-    ctx.extra['algorithm_under_check'] = 'gated widening (code as pinned)' if MODE['gated'] else 'repaired widening'
-    run_history(ctx, WITNESS[0], pools[WITNESS[0]], WITNESS[1], drv, 'witness')
-    # exhaustive pairs: every (invalid or aborted first call) x (second call), iter_errors / validate / decode
+            run_history(ctx, c['pool'], pools[c['pool']], c['history'], drv, 'corpus', docs=c.get('docs'))
+    run_history(ctx, WITNESS_F1[0], pools[WITNESS_F1[0]], WITNESS_F1[1], drv, 'witness', deep=True)
+    run_history(ctx, WITNESS_F2[0], pools[WITNESS_F2[0]], WITNESS_F2[1], drv, 'witness', deep=True)
+    if not ctx.known_hits.get('C10-F2'):
+        ctx.count('witness-C10-F2-no-longer-differs')
+    for h in WITNESS_F3:
+        run_history(ctx, 0, pools[0], h, drv, 'witness-F3', docs=F3_DOCS)
+    # calls aborted between two statements of the xsi:type block (KeyboardInterrupt from a trace function)
+    for pi, di, follow in ((0, 0, 2), (0, 6, 0), (0, 17, 6), (0, 16, 2), (1, 6, 4)):
+        for nth in range(1, ctx.pick(5, 9)):
+            run_history(ctx, pi, pools[pi], [['tabort', di, nth], ['iter_errors', follow, 1], ['iter_errors', di, 1],
+                                             ['decode', follow, 1]], drv, 'abort-inside-xsi', deep=(nth <= 2))
+    # exhaustive pairs: every (first call) x (second call)
+    first_ops = ('iter_errors', 'validate', 'stop', 'exv') if ctx.quick() else \
+        ('iter_errors', 'validate', 'stop', 'exv', 'kbint', 'lazy', 'abandon', 'decode_strict')
     for pi, pool in enumerate(pools):
         for d1 in range(len(pool.docs)):
             for d2 in range(len(pool.docs)):
-                for op1 in (('iter_errors', 'validate', 'stop') if ctx.quick() else OPS):
-                    run_history(ctx, pi, pool, [[op1, d1, 2], ['iter_errors', d2, 1], ['decode', d2, 1]], drv, 'pairs')
+                for k, op1 in enumerate(first_ops):
+                    if ctx.quick() and (d1 * 7 + d2 * 3 + k) % 2:
+                        continue           # half of the (op, pair) grid per run in the quick tier
+                    run_history(ctx, pi, pool, [[op1, d1, 2], ['iter_errors', d2, 1], ['decode', d2, 1]], drv, 'pairs',
+                                deep=(d1 + d2 * 5 + k) % 23 == 0)
             if ctx.time_left() < 200:
                 break
-    n = ctx.pick(250, 1200)
-    maxlen = ctx.pick(12, 60)
+    n = ctx.pick(150, 500)
+    maxlen = ctx.pick(12, 40)
     for i in range(n):
         pi = ctx.rng.randrange(len(pools))
-        run_history(ctx, pi, pools[pi], random_history(ctx.rng, pools[pi], maxlen), drv, 'random')
+        run_history(ctx, pi, pools[pi], random_history(ctx.rng, pools[pi], maxlen), drv, 'random',
+                    deep=(i % ctx.pick(6, 12) == 0))
         if ctx.time_left() < 120:
             ctx.notes.append(f'random histories cut at {i} by the time budget')
             break
-    ctx.extra['explanation'] = ('all ordered pairs of pool documents (first call iter_errors / strict validate / stop hook%s, then '
-                                'iter_errors and decode of the second) + %d seeded histories of length <= %d'
-                                % ('' if ctx.quick() else ' / every other operation', n, maxlen))
+    ctx.extra['algorithm_under_check'] = 'the code as it is (widening once per (type, constraint) pair, collection gated by selected_by)'
+    ctx.extra['explanation'] = ('witness histories of the listed findings; calls aborted inside the xsi:type block; ordered pairs of '
+                                'pool documents (first call %s, then iter_errors and decode of the second%s) + %d seeded histories '
+                                'of length <= %d over %d operations; deep fingerprints on a sample'
+                                % (' / '.join(first_ops), ', half of the grid' if ctx.quick() else '', n, maxlen, len(OPS)))
 
 
 def search(ctx: Ctx) -> None:
     pools = [Pool(*p) for p in POOLS]
-    detect_mode(pools[WITNESS[0]])
     d = Driver('drv_c10')
-    drv = d if d.path.exists() else None      # the listed finding is recognised through the model's prediction
+    drv = d if d.path.exists() else None
     for i in range(ctx.pick(300, 2000)):
         pi = ctx.rng.randrange(len(pools))
         run_history(ctx, pi, pools[pi], random_history(ctx.rng, pools[pi], 20), drv, 'search')
@@ -620,16 +945,24 @@ def replay(ctx: Ctx, obj: dict) -> int:
     load_findings(ctx)
     pools = [Pool(*p) for p in POOLS]
     pool = pools[case['pool']]
-    detect_mode(pools[WITNESS[0]])
+    docs = case.get('docs') or pool.docs
     print('pool:', pool.name)
     for k, (op, di, st) in enumerate(case['history']):
-        print(f'  call {k}: {op}({"stop at element %d, " % st if op == "stop" else ""}document {di}) {pool.docs[di][:160]}')
+        print(f'  call {k}: {op}({"abort at %d, " % st if op in ABORT_OPS else ""}document {di}) {docs[di][:200]}')
     drv = Driver('drv_c10')
-    run_history(ctx, case['pool'], pool, case['history'], drv if drv.path.exists() else None, 'replay')
+    run_history(ctx, case['pool'], pool, case['history'], drv if drv.path.exists() else None, 'replay', deep=True,
+                docs=case.get('docs'))
     for f in ctx.failures:
         print('FAILS ON THE REAL CODE:', f['what'])
-        print('   used schema :', json.dumps(f['detail']['shared_schema_result'])[:600])
-        print('   fresh schema:', json.dumps(f['detail']['fresh_schema_result'])[:600])
+        if isinstance(f.get('detail'), dict) and 'shared_schema_result' in f['detail']:
+            print('   used schema :', json.dumps(f['detail']['shared_schema_result'])[:600])
+            print('   fresh schema:', json.dumps(f['detail']['fresh_schema_result'])[:600])
+        else:
+            print('   ', json.dumps(f.get('detail'), default=str)[:800])
+    for m in ctx.mismatches[:5]:
+        print('MODEL != IMPLEMENTATION:', m['correspondence'])
+        print('   impl :', json.dumps(m['impl'], default=str)[:500])
+        print('   model:', json.dumps(m['model'], default=str)[:500])
     for k in ctx.known_hits:
         print('matches listed finding', k)
     return 1 if ctx.failures else 0
